@@ -4239,6 +4239,9 @@ class Wallet(object):
                 output_arr.append((o['address'], int(o['value'])))
             rt = self.transaction_create(output_arr, input_arr, fee=t['fee'], network=t['network'],
                                          random_output_order=False)
+            for inp, i in zip(rt.inputs, t['inputs']):
+                if i.get('sequence') is not None:
+                    inp.sequence = i['sequence']
             rt.block_height = t['block_height']
             rt.confirmations = t['confirmations']
             rt.witness_type = t['witness_type']
